@@ -258,6 +258,13 @@ func (b *BlockList) readBlocklists() error {
 			return nil
 		}
 		if !f.IsDir() {
+			// A leftover temp file of an interrupted persist is not a
+			// list: it may hold half a snapshot, and entries removed
+			// since would come back on every start. Drop it unread.
+			if strings.HasPrefix(f.Name(), "local.tmp.") {
+				_ = os.Remove(path) //nolint:gosec // G122 - our own temp file in our own directory
+				return nil
+			}
 			file, err := os.Open(path) //nolint:gosec // G304 - path from walk, not user input
 			if err != nil {
 				return fmt.Errorf("error opening file: %w", err)
